@@ -47,7 +47,7 @@ def scalar(x, form):
     if form == "np.int64":
         return np.int64(round(x))
     if form == "np.int32":
-        return np.int32(round(x))
+        return np.int32(round(x)) if abs(x) < 2**31 - 1 else np.int64(round(x))
     if form == "np.float64":
         return np.float64(x)
     if form == "np.float32":
